@@ -817,3 +817,172 @@ Proof.
   intro H. specialize (H w_entity_change). destruct refuted_entity_change as [E _].
   rewrite E in H. assert (T : no_pending w_entity_change = true) by (vm_compute; reflexivity). specialize (H T). discriminate.
 Qed.
+
+(* ------------------------------------------------------------------ the repaired writes cover *)
+Definition step_covers (s s' : state) (new : list lkey) : Prop :=
+  forall k, key_mem k new = false -> content s' k = content s k.
+
+Fixpoint pall {A} (f : state * list lkey -> A -> state * list lkey) (P : state -> A -> Prop) (s : state) (xs : list A) : Prop :=
+  match xs with [] => True | x :: t => P s x /\ pall f P (fst (f (s, []) x)) t end.
+
+Lemma fold_covers : forall {A} (f : state * list lkey -> A -> state * list lkey) (P : state -> A -> Prop),
+  (forall s ms x, P s x -> exists new, snd (f (s, ms) x) = ms ++ new /\ step_covers s (fst (f (s, ms) x)) new) ->
+  (forall s ms x, fst (f (s, ms) x) = fst (f (s, []) x)) ->
+  forall xs s ms, pall f P s xs ->
+  exists new, snd (fold_left f xs (s, ms)) = ms ++ new /\ step_covers s (fst (fold_left f xs (s, ms))) new.
+Proof.
+  intros A f P Hstep Hind xs; induction xs as [|x t IH]; intros s ms Hp; cbn [fold_left].
+  - exists []. split; [rewrite app_nil_r; reflexivity | intros k _; reflexivity].
+  - destruct Hp as [Hx Ht]. destruct (Hstep s ms x Hx) as [n1 [E1 C1]].
+    destruct (f (s, ms) x) as [s1 ms1] eqn:F. cbn [fst snd] in *. subst ms1.
+    assert (Hs1 : s1 = fst (f (s, []) x)) by (rewrite <- Hind with (ms := ms); rewrite F; reflexivity).
+    rewrite <- Hs1 in Ht. destruct (IH s1 (ms ++ n1) Ht) as [n2 [E2 C2]].
+    exists (n1 ++ n2). split; [rewrite E2, app_assoc; reflexivity|].
+    intros k Hk. rewrite key_mem_app in Hk. apply orb_false_iff in Hk as [K1 K2].
+    rewrite (C2 k K2). apply C1; exact K1.
+Qed.
+
+Lemma filter_filter_same : forall {A} (f g : A -> bool) l,
+  (forall x, In x l -> f x = true -> g x = true) -> filter f (filter g l) = filter f l.
+Proof.
+  intros A f g l; induction l as [|h t IH]; intro H; [reflexivity|]. cbn [filter].
+  assert (Ht : forall x, In x t -> f x = true -> g x = true) by (intros x Hx; apply H; right; exact Hx).
+  destruct (g h) eqn:G; cbn [filter].
+  - rewrite IH; auto.
+  - destruct (f h) eqn:F; [rewrite (H h (or_introl eq_refl) F) in G; discriminate | apply IH; exact Ht].
+Qed.
+Lemma key_mem_app_false : forall k a b, key_mem k (a ++ b) = false -> key_mem k a = false /\ key_mem k b = false.
+Proof. intros k a b H. rewrite key_mem_app in H. apply orb_false_iff in H. exact H. Qed.
+Lemma key_mem_map_false : forall {A} (g : A -> lkey) k l x, key_mem k (map g l) = false -> In x l -> key_eqb (g x) k = false.
+Proof.
+  intros A g k l x H Hin. destruct (key_eqb (g x) k) eqn:E; [|reflexivity].
+  apply key_eqb_eq in E. assert (In k (map g l)) by (rewrite <- E; apply in_map; exact Hin).
+  apply key_mem_In in H0. congruence.
+Qed.
+
+(* INSERT OR REPLACE of a node tombstone only touches the key of the tombstone *)
+Lemma put_ndel_sigs : forall t l k, key_eqb (ndel_key t) k = false ->
+  filter (fun d => key_eqb (ndel_key d) k) (put_ndel t l) = filter (fun d => key_eqb (ndel_key d) k) l.
+Proof.
+  intros t l k Hk. unfold put_ndel. rewrite filter_app. cbn [filter]. rewrite Hk, app_nil_r.
+  apply filter_filter_same. intros d _ Hd.
+  destruct (N.eqb (nd_room d) (nd_room t) && Z.eqb (nd_date d) (nd_date t) && N.eqb (nd_id d) (nd_id t) && N.eqb (nd_ent d) (nd_ent t)) eqn:E; [|reflexivity].
+  exfalso. apply andb_true_iff in E as [E E4]. apply andb_true_iff in E as [E E3]. apply andb_true_iff in E as [E1 E2].
+  apply N.eqb_eq in E1. apply Z.eqb_eq in E2. apply N.eqb_eq in E4.
+  unfold ndel_key in *. rewrite E1, E2, E4 in Hd. congruence.
+Qed.
+
+(* class 3, repaired (9c2e3ca): a peer's tombstones mark every key they change — unconditionally *)
+Lemma sdel_node1_covers : forall s ms t,
+  exists new, snd (sdel_node1 (s, ms) t) = ms ++ new /\ step_covers s (fst (sdel_node1 (s, ms) t)) new.
+Proof.
+  intros s ms t. unfold sdel_node1.
+  destruct (existsb (fun n => N.eqb (n_id n) (nd_id t) && negb (N.eqb (n_ent n) (nd_ent t))) (nodes s)).
+  - exists []. split; [cbn [snd]; rewrite app_nil_r; reflexivity | intros k _; reflexivity].
+  - eexists. split; [cbn [snd]; reflexivity|]. cbn [fst]. intros k Hk.
+    apply key_mem_app_false in Hk as [Hrem Hk]. apply key_mem_cons_false in Hk as [Hdate _].
+    unfold content, sigs. cbn [nodes ndels edels set_tables]. f_equal. f_equal; [|f_equal].
+    + f_equal. apply put_ndel_sigs. exact Hdate.
+    + f_equal. apply filter_filter_same. intros n Hin Hn.
+      set (hit := fun n0 : nrow => opt_is (n_room n0) (nd_room t) && N.eqb (n_id n0) (nd_id t) && (n_mdate n0 <=? nd_mdate t)).
+      change (negb (hit n) = true). destruct (hit n) eqn:Hh; [|reflexivity]. exfalso.
+      assert (Hin' : In n (filter hit (nodes s))) by (apply filter_In; split; assumption).
+      pose proof (key_mem_map_false (fun n0 => (nd_room t, n_ent n0, day (n_mdate n0))) k _ n Hrem Hin') as F.
+      unfold hit in Hh. apply andb_true_iff in Hh as [Hh _]. apply andb_true_iff in Hh as [Hr _].
+      unfold okey_is, node_key in Hn. destruct (n_room n) as [r|]; [|discriminate]. cbn [opt_is] in Hr.
+      apply N.eqb_eq in Hr. subst r. cbn beta in F. congruence.
+Qed.
+Theorem tombstone_covers : forall s ts,
+  let r := exec_op (SDelNodes ts) s in uncovered s (fst r) (snd r) = [].
+Proof.
+  intros s ts. cbn [exec_op].
+  destruct (fold_covers sdel_node1 (fun _ _ => True)) with (xs := ts) (s := s) (ms := @nil lkey) as [new [E C]].
+  - intros s0 ms x _. apply sdel_node1_covers.
+  - intros s0 ms x. unfold sdel_node1. destruct (existsb _ (nodes s0)); reflexivity.
+  - induction ts as [|x t IH] in s |- *; cbn [pall]; auto.
+  - apply uncovered_intro. rewrite E. exact C.
+Qed.
+
+(* class 1, repaired (4510e5f): synchronised nodes mark the day the previous version leaves and the day
+   the new one enters; what remains uncovered is exactly a version that arrives under another entity
+   than the stored row of that id (class 6) *)
+Definition same_entity (s : state) (x : snode) : Prop :=
+  forall old, find_node_id s (sn_id x) = Some old -> n_ent old = sn_ent x.
+Lemma ingest1_covers : forall room s ms x, same_entity s x ->
+  exists new, snd (ingest1 room (s, ms) x) = ms ++ new /\ step_covers s (fst (ingest1 room (s, ms) x)) new.
+Proof.
+  intros room s ms x Hse. unfold ingest1.
+  destruct (match max_tombstone s (sn_id x) with Some m => sn_mdate x <=? m | None => false end).
+  { exists []. split; [cbn [snd]; rewrite app_nil_r; reflexivity | intros k _; reflexivity]. }
+  destruct (find_node_id s (sn_id x)) as [old|] eqn:Hf.
+  - destruct ((sn_mdate x <? n_mdate old) || ((sn_mdate x =? n_mdate old) && N.leb (sn_sig x) (n_sig old))).
+    { exists []. split; [cbn [snd]; rewrite app_nil_r; reflexivity | intros k _; reflexivity]. }
+    eexists. split; [cbn [snd]; reflexivity|]. cbn [fst]. intros k Hk.
+    apply key_mem_app_false in Hk as [Hold Hnew]. apply key_mem_cons_false in Hnew as [Hnew _].
+    unfold content, sigs. cbn [nodes ndels edels set_tables]. f_equal. f_equal. f_equal. f_equal.
+    unfold find_node_id in Hf. eapply replace_first_filter; [exact Hf | |].
+    + unfold node_key. rewrite (Hse old Hf). destruct (n_room old) as [ro|]; [|reflexivity].
+      cbn [okey_is room_mark] in *. apply key_mem_cons_false in Hold as [Hold _]. exact Hold.
+    + unfold node_key; cbn [n_room n_ent n_mdate okey_is]. exact Hnew.
+  - eexists. split; [cbn [snd]; reflexivity|]. cbn [fst]. intros k Hk. apply key_mem_cons_false in Hk as [Hk _].
+    unfold content, sigs. cbn [nodes ndels edels set_tables]. rewrite filter_app, map_app. cbn [filter].
+    unfold node_key; cbn [n_room n_ent n_mdate okey_is]. rewrite Hk. cbn [map]. rewrite app_nil_r. reflexivity.
+Qed.
+Theorem sync_update_covers : forall s room ns, pall (ingest1 room) same_entity s ns ->
+  let r := exec_op (SNodes room ns) s in uncovered s (fst r) (snd r) = [].
+Proof.
+  intros s room ns Hp. cbn [exec_op].
+  destruct (fold_covers (ingest1 room) same_entity) with (xs := ns) (s := s) (ms := @nil lkey) as [new [E C]].
+  - intros s0 ms x Hx. apply ingest1_covers; exact Hx.
+  - intros s0 ms x. unfold ingest1.
+    destruct (match max_tombstone s0 (sn_id x) with Some m => sn_mdate x <=? m | None => false end); [reflexivity|].
+    destruct (find_node_id s0 (sn_id x)) as [old|]; [|reflexivity].
+    destruct ((sn_mdate x <? n_mdate old) || ((sn_mdate x =? n_mdate old) && N.leb (sn_sig x) (n_sig old))); reflexivity.
+  - exact Hp.
+  - apply uncovered_intro. rewrite E. exact C.
+Qed.
+
+(* class 2, repaired (f14488a): a reference deletion marks the day its source row leaves and the day
+   it enters (and the edge tombstone's day), whether or not the reference exists.  The only premise is
+   about the edge-tombstone table, not about the repaired path: no edge tombstone is already dated at
+   the current instant (INSERT OR REPLACE keys it without the source entity) *)
+Lemma put_edel_sigs : forall t l k, key_eqb (edel_key t) k = false ->
+  (forall d, In d l -> ed_date d <> ed_date t) ->
+  filter (fun d => key_eqb (edel_key d) k) (put_edel t l) = filter (fun d => key_eqb (edel_key d) k) l.
+Proof.
+  intros t l k Hk Hd. unfold put_edel. rewrite filter_app. cbn [filter]. rewrite Hk, app_nil_r.
+  f_equal. clear Hk. induction l as [|d l IH]; [reflexivity|]. cbn [filter].
+  assert (E : Z.eqb (ed_date d) (ed_date t) = false) by (apply Z.eqb_neq; apply Hd; left; reflexivity).
+  rewrite E, andb_false_r. cbn [andb negb]. rewrite IH; [reflexivity|]. intros x Hx; apply Hd; right; exact Hx.
+Qed.
+Theorem ref_deletion_covers : forall s src ent dest sig esig,
+  (forall d, In d (edels s) -> ed_date d <> now s) ->
+  let r := exec_op (LDelRef src ent dest sig esig) s in uncovered s (fst r) (snd r) = [].
+Proof.
+  intros s src ent dest sig esig Hnow. cbn [exec_op]. destruct (find_node s src ent) as [n|] eqn:Hf.
+  2: { cbn [fst snd]. apply uncovered_intro. reflexivity. }
+  unfold find_node in Hf. pose proof (find_some _ _ Hf) as [_ Hp].
+  apply andb_true_iff in Hp as [_ He]. apply N.eqb_eq in He.
+  assert (Hnodes : forall k, key_mem k (room_mark (n_room n) (n_ent n) (n_mdate n) ++ room_mark (n_room n) ent (now s)) = false ->
+            filter (fun x => okey_is (node_key x) k)
+              (replace_first (fun x => N.eqb (n_id x) src && N.eqb (n_ent x) ent)
+                 {| n_id := src; n_room := n_room n; n_ent := ent; n_mdate := now s; n_sig := sig |} (nodes s))
+            = filter (fun x => okey_is (node_key x) k) (nodes s)).
+  { intros k Hk. apply key_mem_app_false in Hk as [Ho Hn]. eapply replace_first_filter; [exact Hf | |].
+    - unfold node_key. destruct (n_room n) as [r|]; [|reflexivity]. cbn [okey_is room_mark] in *.
+      apply key_mem_cons_false in Ho as [Ho _]. exact Ho.
+    - unfold node_key; cbn [n_room n_ent n_mdate]. destruct (n_room n) as [r|]; [|reflexivity]. cbn [okey_is room_mark] in *.
+      apply key_mem_cons_false in Hn as [Hn _]. exact Hn. }
+  destruct (find (edge_is src the_label dest) (edges s)) as [e|].
+  - destruct (n_room n) as [r|] eqn:Er.
+    + cbn [fst snd]. apply uncovered_intro. intros k Hk. apply key_mem_cons_false in Hk as [Het Hk].
+      unfold content, sigs. cbn [nodes ndels edels set_tables]. f_equal. f_equal. f_equal.
+      * f_equal. apply put_edel_sigs; [exact Het | cbn [ed_date]; exact Hnow].
+      * f_equal. rewrite <- Er in *. apply Hnodes. exact Hk.
+    + cbn [fst snd]. apply uncovered_intro. intros k Hk.
+      unfold content, sigs. cbn [nodes ndels edels set_tables]. f_equal. f_equal. f_equal. f_equal.
+      rewrite <- Er in *. apply Hnodes. exact Hk.
+  - cbn [fst snd]. apply uncovered_intro. intros k Hk.
+    unfold content, sigs. cbn [nodes ndels edels set_tables]. f_equal. f_equal. f_equal. f_equal.
+    apply Hnodes. exact Hk.
+Qed.
